@@ -406,7 +406,7 @@ func (r *regWorld) apiOp(p *pools) (string, string) {
 	default:
 		s := euiText(rng, p.eui())
 		payload := randBytes(rng, rng.Intn(30))
-		port := []int32{0, 1, 255, 256, -1, int32(rng.Intn(256))}[rng.Intn(6)]
+		port := []int32{0, 1, 223, 224, 255, 256, -1, int32(1 + rng.Intn(223)), int32(rng.Intn(256))}[rng.Intn(9)]
 		ack := rng.Intn(2) == 0
 		time.Sleep(2 * time.Millisecond) // created_time is the clock in ms and part of the key
 		before := time.Now().UnixMilli()
